@@ -99,6 +99,9 @@ func runC13(c *fw.Ctx) {
 		c13ProbePoint(c, e, g)
 		c13GovDelivered(c, e, g)
 		c13Crafted(c, e, g)
+		if p == points-1 {
+			c13OddReceivers(c, e, g)
+		}
 	}
 	noteHalt(e)
 	c.Nontrivial()
